@@ -1,5 +1,6 @@
 /* C10 harness (C++ part): private configuration mpt::config::root (kind R),
- * driven through the virtual config interface (assign / remove / query).
+ * driven through the virtual config interface (assign / remove / query), and
+ * the mpt::path methods set / add / del (kind Q, same grammar as kind P).
  * Grammar: see props/c10.py.  One case per forked child.
  */
 #include "common.h"
@@ -109,8 +110,91 @@ static void dump_items(const mpt::span<const mpt::config_item> &sp)
 		if (e->elements().begin() != e->elements().end()) { vh_add("("); dump_items(e->elements()); vh_add(")"); }
 	}
 }
+/* ---------------------------------------------------------------- kind Q: mpt::path methods */
+/* the data members of mpt::path are protected: same layout as the C struct */
+struct rawpath { const char *base; size_t off, len; uint8_t first, flags; char sep, assign; };
+static_assert(sizeof(rawpath) == sizeof(mpt::path), "path layout");
+static rawpath *rp(mpt::path *p) { return reinterpret_cast<rawpath *>(p); }
+enum { PathHasArray = 0x40, PathSepBinary = 0x80 };
+
+static size_t path_used(const rawpath *p)
+{
+	const mpt::buffer *b = reinterpret_cast<const mpt::buffer *>(p->base);
+	/* _used is protected in C++: second size_t behind vptr and traits pointer (C layout) */
+	const size_t *w = reinterpret_cast<const size_t *>(b - 1);
+	return w[3];
+}
+static void show_path(mpt::path *pp, int ret, int isset)
+{
+	rawpath *p = rp(pp);
+	int r, first = 1;
+	if (isset && ret >= 0) vh_tok("s"); else vh_tok("%d", ret);
+	vh_add("|%zu.%zu.%u.%u.%d|", p->off, p->len, (unsigned) p->first, (unsigned) p->flags, isset ? ret : 0);
+	if (p->base) enc(48, p->base + p->off, p->len); else vh_add("-");
+	vh_add("|");
+	if (p->base && (p->flags & PathHasArray)) {
+		size_t used = path_used(p), end = p->off + p->len;
+		enc(48, p->base + end, used > end ? used - end : 0);
+	}
+	else vh_add("-");
+	vh_add("|");
+	/* walk a raw copy (no reference taken, flag cleared so that nothing is released) */
+	rawpath q = *p;
+	q.flags &= ~PathHasArray;
+	for (;;) {
+		size_t off = q.off;
+		if ((r = mpt_path_next(reinterpret_cast<mpt::path *>(&q))) < 0) break;
+		if (!first) vh_add(",");
+		first = 0;
+		enc(12, q.base + off, (size_t) r);
+	}
+	if (first) vh_add("0");
+}
+static void run_path(int ntok, char **tok)
+{
+	unsigned sep = 0, asg = 0;
+	int i = 4;
+	sscanf(tok[2], "%2x", &sep);
+	sscanf(tok[3], "%2x", &asg);
+	mpt::path *p = new mpt::path(0, (int) sep, (int) asg);
+	while (i < ntok) {
+		const char *op = tok[i++];
+		int r;
+		if (!strcmp(op, "set")) {
+			const char *s = tok[i++];
+			int len = atoi(tok[i++]);
+			char *buf = strcmp(s, "~") ? cstr_of_hex(s) : 0;
+			/* no return value in C++: report the count the C function gives on a scratch path */
+			MPT_STRUCT(path) tmp(0, (int) sep, (int) asg);
+			r = mpt_path_set(&tmp, buf, len);
+			p->set(buf, len);
+			show_path(p, r, 1);
+		}
+		else if (!strcmp(op, "next")) { r = mpt_path_next(p); show_path(p, r, 0); }
+		else if (!strcmp(op, "last")) { r = mpt_path_last(p); show_path(p, r, 0); }
+		else if (!strcmp(op, "del")) { r = p->del(); show_path(p, r, 0); }
+		else if (!strcmp(op, "add")) { r = p->add(atoi(tok[i++])); show_path(p, r, 0); }
+		else if (!strcmp(op, "post")) {
+			size_t n, k;
+			uint8_t *b = vh_unhex(tok[i++], &n);
+			mpt_path_valid(p);
+			for (k = 0; k < n; k++) {
+				if (mpt_path_addchar(p, b[k]) < 0) { vh_tok("F:addchar"); return; }
+				mpt_path_valid(p);
+			}
+			show_path(p, 0, 0);
+		}
+		else if (!strcmp(op, "bin")) { rp(p)->flags |= PathSepBinary; show_path(p, 0, 0); }
+		else { fprintf(stderr, "bad op %s\n", op); _exit(3); }
+	}
+	fflush(stdout);
+	_exit(0);
+}
+
 static void run_case(int ntok, char **tok)
 {
+	if (ntok >= 4 && tok[1][0] == 'Q') { run_path(ntok, tok); return; }
+
 	int i = 2, nv, no, k;
 	struct spec *obs;
 	mpt::config::root cfg;
